@@ -3,20 +3,21 @@ package layerb
 import "strings"
 
 type fieldCase struct {
-	Name    string
-	Decls   string
-	Src     string
-	Tgt     string
-	Lines   []string // method lines
-	Conv    []string // converter lines
-	Extra   string   // extra methods (interface syntax; "func" inserted for variables)
-	Pairs   map[string]*PairSpec
-	Fail    string
-	ZeroNil bool
-	Formats []string
-	Aux     map[string]string // auxiliary packages (directory -> source)
-	Imports []string
-	Custom  map[string]string // pairs served by custom functions
+	Name     string
+	Decls    string
+	Src      string
+	Tgt      string
+	Lines    []string // method lines
+	Conv     []string // converter lines
+	Extra    string   // extra methods (interface syntax; "func" inserted for variables)
+	Pairs    map[string]*PairSpec
+	Fail     string
+	ZeroNil  bool
+	Formats  []string
+	Aux      map[string]string // auxiliary packages (directory -> source)
+	Imports  []string
+	Custom   map[string]string // pairs served by custom functions
+	SkipCopy bool              // skipCopySameType in effect (sharing oracle)
 }
 
 func fs(path ...string) *FieldSpec { return &FieldSpec{Path: path} }
@@ -52,6 +53,14 @@ func fieldCases() []fieldCase {
 		{Name: "automap", Decls: in + "type PFXOut struct {\n\tName string\n\tLast string\n\tStreet string\n}\n", Src: "PFXIn", Tgt: "PFXOut",
 			Lines: []string{"autoMap Nested"},
 			Pairs: map[string]*PairSpec{"PFXIn→PFXOut": {Fields: map[string]*FieldSpec{"Last": fs("Nested", "Last"), "Street": fs("Nested", "Street")}}}},
+		// the argument-less methods of a struct flattened by autoMap are sources like its fields (by value and behind
+		// a pointer)
+		{Name: "automap_getter_of_flattened_struct", Decls: "type PFXMeta struct{ Rev int }\n\nfunc (m PFXMeta) Title() string { return \"\" }\n\ntype PFXIn struct {\n\tName string\n\tMeta PFXMeta\n}\ntype PFXOut struct {\n\tName string\n\tTitle string\n\tRev int\n}\n", Src: "PFXIn", Tgt: "PFXOut",
+			Lines: []string{"autoMap Meta"},
+			Pairs: map[string]*PairSpec{"PFXIn→PFXOut": {Fields: map[string]*FieldSpec{"Title": {Via: "PFXMeta.Title", Path: []string{"Meta"}}, "Rev": fs("Meta", "Rev")}}}},
+		{Name: "automap_getter_of_flattened_struct_ignorecase", Decls: "type PFXMeta struct{ Rev int }\n\nfunc (m PFXMeta) Title() string { return \"\" }\n\ntype PFXIn struct {\n\tName string\n\tMeta PFXMeta\n}\ntype PFXOut struct {\n\tName string\n\tTitle string\n\tREV int\n}\n", Src: "PFXIn", Tgt: "PFXOut",
+			Lines: []string{"autoMap Meta", "matchIgnoreCase"},
+			Pairs: map[string]*PairSpec{"PFXIn→PFXOut": {Fields: map[string]*FieldSpec{"Title": {Via: "PFXMeta.Title", Path: []string{"Meta"}}, "REV": fs("Meta", "Rev")}}}},
 		// autoMap concerns the method's own struct pair, not unnamed structs nested in it
 		{Name: "automap_with_nested_unnamed", Decls: in + "type PFXIn2 struct {\n\tName string\n\tNested PFXN\n\tMeta struct{ Zip int }\n\tL []struct{ Zip int }\n}\ntype PFXOut struct {\n\tName string\n\tLast string\n\tMeta struct{ Zip int }\n\tL []struct{ Zip int }\n}\n", Src: "PFXIn2", Tgt: "PFXOut",
 			Lines: []string{"autoMap Nested", "ignoreMissing"},
@@ -71,6 +80,14 @@ func fieldCases() []fieldCase {
 			Conv:  []string{"ignoreMissing"},
 			Pairs: map[string]*PairSpec{"PFXIn→PFXOut": {IgnoreMissing: true}}},
 		// one source pointer read by several target fields: every read keeps its own nil check
+		// skipCopySameType and a value behind a pointer of the path, handed to a pointer field: T -> *T is no position of
+		// identical types, the pointer does not point into the source
+		{Name: "path_value_behind_pointer_to_pointer_skipcopy", Decls: "type PFXT struct {\n\tV []int\n\tN int\n}\ntype PFXN struct {\n\tF PFXT\n\tA [2]int\n\tI int\n}\ntype PFXIn struct{ Nested *PFXN }\ntype PFXOut struct {\n\tF *PFXT\n\tA *[2]int\n\tI *int\n}\n", Src: "PFXIn", Tgt: "PFXOut",
+			Conv: []string{"skipCopySameType"}, Lines: []string{"map Nested.F F", "map Nested.A A", "map Nested.I I"}, SkipCopy: true,
+			Pairs: map[string]*PairSpec{"PFXIn→PFXOut": {Fields: map[string]*FieldSpec{"F": fs("Nested", "F"), "A": fs("Nested", "A"), "I": fs("Nested", "I")}}}},
+		{Name: "path_value_behind_pointer_to_pointer_skipcopy_ptrsource", Decls: "type PFXT struct {\n\tV []int\n\tN int\n}\ntype PFXN struct {\n\tF PFXT\n\tI int\n}\ntype PFXIn struct{ Nested *PFXN }\ntype PFXOut struct {\n\tF *PFXT\n\tI *int\n}\n", Src: "*PFXIn", Tgt: "*PFXOut",
+			Conv: []string{"skipCopySameType"}, Lines: []string{"map Nested.F F", "map Nested.I I"}, SkipCopy: true,
+			Pairs: map[string]*PairSpec{"PFXIn→PFXOut": {Fields: map[string]*FieldSpec{"F": fs("Nested", "F"), "I": fs("Nested", "I")}}}},
 		{Name: "path_same_pointer_twice", Decls: "type PFXIs struct{ A int }\ntype PFXIt struct{ A int }\ntype PFXIn struct {\n\tNick *string\n\tP *PFXIs\n\tL *[]int\n}\ntype PFXOut struct {\n\tNick *string\n\tAlias *string\n\tThird *string\n\tP *PFXIt\n\tP2 *PFXIt\n\tL *[]int\n\tL2 *[]int\n}\n", Src: "PFXIn", Tgt: "PFXOut",
 			Lines: []string{"map Nick Alias", "map Nick Third", "map P P2", "map L L2"},
 			Pairs: map[string]*PairSpec{"PFXIn→PFXOut": {Fields: map[string]*FieldSpec{"Alias": fs("Nick"), "Third": fs("Nick"), "P2": fs("P"), "L2": fs("L")}}}},
@@ -202,6 +219,17 @@ func fieldCases() []fieldCase {
 			Aux:     map[string]string{"pfxmodel": "package pfxmodel\n\ntype Record struct {\n\tName string\n\trev int\n}\n"},
 			Imports: []string{`pfxmodel "corpus/GRP/pfxmodel"`},
 			Fail:    "unexported field of a local type defined from a struct of another package", Formats: []string{"variable"}},
+		// an argument-less method of the source is a source like a field: an unexported one of a type of another package
+		// cannot be called from the output package, whichever way it was selected
+		{Name: "fail_unexported_getter_of_foreign_type_map", Decls: "type PFXOut struct {\n\tName string\n\tSecret string\n}\n", Src: "pfxmodel.Account", Tgt: "PFXOut",
+			Aux: map[string]string{"pfxmodel": "package pfxmodel\n\ntype Account struct{ Name string }\n\nfunc (a Account) secret() string { return a.Name }\nfunc (a Account) Label() string { return a.Name }\n"}, Imports: []string{`pfxmodel "corpus/GRP/pfxmodel"`},
+			Lines: []string{"map secret Secret"}, Fail: "unexported method of a type of another package as field source (goverter:map)"},
+		{Name: "fail_unexported_getter_of_foreign_type_ignorecase", Decls: "type PFXOut struct {\n\tName string\n\tSecret string\n}\n", Src: "pfxmodel.Account", Tgt: "PFXOut",
+			Aux: map[string]string{"pfxmodel": "package pfxmodel\n\ntype Account struct{ Name string }\n\nfunc (a Account) secret() string { return a.Name }\nfunc (a Account) Label() string { return a.Name }\n"}, Imports: []string{`pfxmodel "corpus/GRP/pfxmodel"`},
+			Lines: []string{"matchIgnoreCase"}, Fail: "unexported method of a type of another package as field source (matchIgnoreCase)"},
+		{Name: "exported_getter_of_foreign_type", Decls: "type PFXOut struct {\n\tName string\n\tLabel string\n}\n", Src: "pfxmodel.Account", Tgt: "PFXOut",
+			Aux: map[string]string{"pfxmodel": "package pfxmodel\n\ntype Account struct{ Name string }\n\nfunc (a Account) secret() string { return a.Name }\nfunc (a Account) Label() string { return a.Name }\n"}, Imports: []string{`pfxmodel "corpus/GRP/pfxmodel"`},
+			Pairs: map[string]*PairSpec{"Account→PFXOut": {Fields: map[string]*FieldSpec{"Label": {Via: "Account.Label"}}}}},
 		{Name: "unexported_in_local_unnamed_struct_same_package", Decls: "type PFXIn struct {\n\tName string\n\tMeta struct {\n\t\tTitle string\n\t\trev int\n\t}\n}\ntype PFXOut struct {\n\tName string\n\tMeta struct {\n\t\tTitle string\n\t\trev int\n\t}\n}\n", Src: "PFXIn", Tgt: "PFXOut",
 			Formats: []string{"variable"}},
 		{Name: "exported_fields_of_foreign_unnamed_struct", Src: "pfxmodel.In", Tgt: "pfxmodel.Out",
@@ -326,6 +354,18 @@ func fieldCases() []fieldCase {
 			Lines: []string{"map PL.X.Y Name"}, Fail: "path continues behind a pointer to a non-struct"},
 		{Name: "underscore_fields", Decls: "type PFXIn struct {\n\tName string\n\t_rev int\n\t_deleted *bool\n}\ntype PFXOut struct {\n\tName string\n\t_rev int\n\t_deleted *bool\n}\n", Src: "PFXIn", Tgt: "PFXOut",
 			Formats: []string{"variable"}},
+		// a field that is skipped (blank, or unexported under ignoreUnexported) does not end the struct: the fields
+		// declared after it are converted
+		{Name: "underscore_blank_in_the_middle", Decls: "type PFXIn struct {\n\tID int\n\tName string\n\tP *int\n\tTags []string\n\tAttrs map[string]int\n}\ntype PFXOut struct {\n\tID int\n\t_ [0]func()\n\tName string\n\tP *int\n\t_ int\n\tTags []string\n\tAttrs map[string]int\n}\n", Src: "PFXIn", Tgt: "PFXOut"},
+		{Name: "underscore_ignoreunexported_in_the_middle", Decls: "type PFXIn struct {\n\tID int\n\tName string\n\tP *int\n\tTags []string\n}\ntype PFXOut struct {\n\tID int\n\tcache int\n\tName string\n\tP *int\n\tstate *int\n\tTags []string\n}\n", Src: "PFXIn", Tgt: "PFXOut",
+			Lines: []string{"ignoreUnexported"},
+			Pairs: map[string]*PairSpec{"PFXIn→PFXOut": {IgnoreUnexported: true}}},
+		// ignoreMissing is about target fields without a source: a goverter:ignore naming a field the target does not
+		// have stays an error
+		{Name: "fail_ignore_unknown_field_under_ignoremissing", Decls: "type PFXIn struct {\n\tName string\n\tPasswordHash string\n}\ntype PFXOut struct {\n\tName string\n\tPasswordHash string\n\tExtra int\n}\n", Src: "PFXIn", Tgt: "PFXOut",
+			Lines: []string{"ignoreMissing", "ignore PaswordHash"}, Fail: "goverter:ignore of a field that does not exist (ignoreMissing in effect)"},
+		{Name: "fail_ignore_unknown_field_under_converter_ignoremissing", Decls: "type PFXIn struct {\n\tName string\n\tPasswordHash string\n}\ntype PFXOut struct {\n\tName string\n\tPasswordHash string\n}\n", Src: "PFXIn", Tgt: "PFXOut",
+			Conv: []string{"ignoreMissing"}, Lines: []string{"ignore PaswordHash"}, Fail: "goverter:ignore of a field that does not exist (ignoreMissing at converter level)"},
 		{Name: "fail_unexported_other_pkg", Decls: "type PFXIn struct {\n\tName string\n\thidden int\n}\ntype PFXOut struct {\n\tName string\n\thidden int\n}\n", Src: "PFXIn", Tgt: "PFXOut",
 			Fail: "unexported target field without ignoreUnexported", Formats: []string{"struct"}},
 	}
@@ -357,7 +397,7 @@ func FamilyField(thorough bool) []*Conv {
 				MethodLines:  fc.Lines,
 				ConvLines:    fc.Conv,
 				ExtraMethods: extra,
-				Spec:         &Spec{Pairs: fc.Pairs, ZeroOnNil: fc.ZeroNil, Custom: fc.Custom},
+				Spec:         &Spec{Pairs: fc.Pairs, ZeroOnNil: fc.ZeroNil, Custom: fc.Custom, SkipCopy: fc.SkipCopy},
 				ExpectFail:   fc.Fail != "",
 				FailNote:     fc.Fail,
 				Aux:          fc.Aux,
